@@ -167,11 +167,11 @@ Inductive union_shape (acc : option constraints) (ts : list ty) : meth -> Prop :
 
 Lemma compile_union_shape acc ts : union_shape acc ts (compile o acc (TUnion ts)).
 Proof.
-  cbn [compile]. rewrite strict.
+  cbn [compile]. rewrite strict. cbn [andb negb]. 
   destruct ts as [|a [|b [|c ts]]].
   - cbn. apply (US_bytype acc []); reflexivity.
   - apply US_single. reflexivity.
-  - cbn [existsb List.length Nat.eqb orb andb].
+  - cbn [existsb List.length Nat.eqb orb andb]. rewrite !andb_true_r.
     destruct (is_none_ty a) eqn:Ea; destruct (is_none_ty b) eqn:Eb; cbn [orb andb combine map filter fst negb].
     + rewrite Ea, Eb. cbn. apply US_union.
     + rewrite Ea, Eb. cbn. destruct a; try discriminate. apply US_opt_l; [reflexivity|exact Eb].
@@ -180,7 +180,7 @@ Proof.
       match goal with |- union_shape _ _ (if ?c then _ else _) => destruct c eqn:Ec end; [|apply US_union].
       apply andb_true_iff in Ec. destruct Ec as [Ec _]. apply andb_true_iff in Ec. destruct Ec as [E1 E2].
       apply US_bytype; assumption.
-  - cbn [List.length Nat.eqb]. rewrite andb_false_r.
+  - cbn [List.length Nat.eqb]. rewrite andb_false_r. cbn [andb].
     match goal with |- union_shape _ _ (if ?c then _ else _) => destruct c eqn:Ec end; [|apply US_union].
     apply andb_true_iff in Ec. destruct Ec as [Ec _]. apply andb_true_iff in Ec. destruct Ec as [E1 E2].
     apply US_bytype; assumption.
